@@ -1027,7 +1027,7 @@ func (w *wk) runLevels() {
 		{"L3a calls: 2 arguments (full pool squared)", func() { w.callLevel(2) }},
 		{"L3b calls: keyword lists", func() { w.kwLevel() }},
 		{"L3c texts: length 3 x options {none, all}", func() { w.textLevel(3, false, []int{0, 63}) }},
-		{"L3c2 texts: 56 valid texts over every group of productions, each with every single-token deletion, duplication, swap, replacement and insertion (full alphabet) x options {none, all}", func() { w.mutationLevel([]int{0, 63}, []string{""}) }},
+		{"L3c2 texts: 59 valid texts over every group of productions, each with every single-token deletion, duplication, swap, replacement and insertion (full alphabet) x options {none, all}", func() { w.mutationLevel([]int{0, 63}, []string{""}) }},
 		{"L3c3 texts: the length-3 strings and the mutations of L3c2 through the other entry points (EvalOptions, ExprFuncOptions + Call, Parse + ExecREPLChunk) and the other kinds of source ([]byte, io.Reader, FilePortion at position zero and at 1000:70) x options {all}", func() {
 			w.textLevelVia(3, false, []int{63}, otherEntries)
 			w.mutationLevel([]int{63}, otherEntries)
